@@ -487,3 +487,184 @@ fn c16_rpc_udp_grid_procs_v6() {
     rpc_udp_grid(1, true)
 }
 
+
+// ---- GETADDR / DUMP bodies (XDR structure; the formatted text is an arbitrary string) ----
+fn pad4(n: usize) -> usize { (n + 3) / 4 * 4 }
+
+/// XDR string at r[off..]: length word, bytes, zero padding; -> offset after it
+fn xdr_str_at(r: &[u8], off: usize, want: &[u8]) -> usize {
+    assert!(r.len() >= off + 4 + pad4(want.len()), "C16: reply ends inside an XDR string");
+    assert!(be32(&r[off..off + 4]) as usize == want.len(), "C16: XDR string length word differs from the string");
+    let mut i = 0;
+    while i < want.len() {
+        assert!(r[off + 4 + i] == want[i], "C16: XDR string bytes differ from the advertised text");
+        i += 1;
+    }
+    while i < pad4(want.len()) {
+        assert!(r[off + 4 + i] == 0, "C16: XDR string padding is not zero");
+        i += 1;
+    }
+    off + 4 + pad4(want.len())
+}
+
+fn rpc_call(vers: u32, proc_: u32) -> [u8; 40] {
+    let mut d: [u8; 40] = kani::any();
+    d[12] = 0; d[13] = 1; d[14] = 0x86; d[15] = 0xa0; // program 100000
+    d[16] = 0; d[17] = 0; d[18] = 0; d[19] = vers as u8;
+    d[20] = 0; d[21] = 0; d[22] = 0; d[23] = proc_ as u8;
+    d[28] = 0; d[29] = 0; d[30] = 0; d[31] = 0;
+    d[36] = 0; d[37] = 0; d[38] = 0; d[39] = 0;
+    d
+}
+
+fn arm_fmt(len: usize) -> [u8; 16] {
+    let t: [u8; 16] = kani::any();
+    let mut i = 0;
+    while i < 16 {
+        kani::assume(t[i] >= 0x20 && t[i] < 0x7f);
+        i += 1;
+    }
+    unsafe {
+        FMT_LEN = len;
+        FMT_CALLS = 0;
+        FMT_BYTES = t;
+    }
+    t
+}
+
+/// GETADDR (procedure 3, version 3 or 4): accepted, one XDR string = the formatted text
+fn rpc_getaddr(vers: u32, len: usize, v6: bool) {
+    log::set_max_level(log::LevelFilter::Off);
+    let d = rpc_call(vers, 3);
+    let t = arm_fmt(len);
+    let ci = rpc_ci(v6);
+    let masscanned = ms_plain([0, 0], MacAddr::new(0, 1, 2, 3, 4, 5));
+    let r = match repl_udp(&d, &masscanned, &ci, None) {
+        Some(r) => r,
+        None => {
+            assert!(false, "C16: GETADDR not answered");
+            return;
+        }
+    };
+    check_prologue(&r, be32(&d[0..4]));
+    assert!(be32(&r[20..24]) == 0, "C16: GETADDR accept state");
+    let end = xdr_str_at(&r, 24, &t[..len]);
+    assert!(end == r.len(), "C16: bytes after the universal address");
+    assert!(unsafe { FMT_CALLS } == 1, "C16: GETADDR formats one universal address");
+    kani::cover!(true, "GETADDR answered");
+}
+
+/// DUMP (procedure 4): three entries (versions 2, 3, 4 of program 100000) and the end marker
+fn rpc_dump(vers: u32, len: usize, v6: bool) {
+    log::set_max_level(log::LevelFilter::Off);
+    let d = rpc_call(vers, 4);
+    let t = arm_fmt(len);
+    let ci = rpc_ci(v6);
+    let port = ci.port.dst.unwrap() as u32;
+    let masscanned = ms_plain([0, 0], MacAddr::new(0, 1, 2, 3, 4, 5));
+    let r = match repl_udp(&d, &masscanned, &ci, None) {
+        Some(r) => r,
+        None => {
+            assert!(false, "C16: DUMP not answered");
+            return;
+        }
+    };
+    check_prologue(&r, be32(&d[0..4]));
+    assert!(be32(&r[20..24]) == 0, "C16: DUMP accept state");
+    let mut off = 24;
+    let mut v = 2;
+    while v <= 4 {
+        assert!(r.len() >= off + 12, "C16: DUMP list truncated");
+        assert!(be32(&r[off..off + 4]) == 1, "C16: DUMP entry without value-follows marker");
+        assert!(be32(&r[off + 4..off + 8]) == 100000 && be32(&r[off + 8..off + 12]) == v, "C16: DUMP entry program / version");
+        off += 12;
+        if vers == 2 {
+            assert!(r.len() >= off + 8, "C16: DUMP v2 entry truncated");
+            assert!(be32(&r[off..off + 4]) == 6, "C16: DUMP v2 protocol is not TCP(6)");
+            assert!(be32(&r[off + 4..off + 8]) == port, "C16: DUMP v2 does not advertise the contacted port");
+            off += 8;
+        } else {
+            off = xdr_str_at(&r, off, if v6 { b"tcp6" } else { b"tcp" });
+            off = xdr_str_at(&r, off, &t[..len]);
+            off = xdr_str_at(&r, off, b"superuser");
+        }
+        v += 1;
+    }
+    assert!(r.len() == off + 4 && be32(&r[off..off + 4]) == 0, "C16: DUMP list not terminated by a no-value-follows marker");
+    kani::cover!(true, "DUMP answered");
+}
+
+//# harness: c16_rpc_getaddr_v3_11
+//# props: C16 C19
+//# tier: quick
+//# encodes: proto::rpc::repl_udp, rpc_parse, build_repl, build_repl_portmap, push_string_pad, push_u32
+//# bounds: 40-byte ONC-RPC GETADDR call over UDP, version 3; XID, flavors, endpoint (IPv4) symbolic; universal address of 11 arbitrary printable bytes
+//# stubs: alloc::fmt::format -> arbitrary printable text of the stated length (same text at every call)
+//# out: the rendering of address and port into the universal-address text (std formatting of IpAddr / integers)
+//# cover: GETADDR answered
+#[kani::proof]
+#[kani::unwind(42)]
+#[kani::stub(alloc::fmt::format, crate::verif_util::fmt_any_stub)]
+fn c16_rpc_getaddr_v3_11() {
+    rpc_getaddr(3, 11, false)
+}
+
+//# harness: c16_rpc_getaddr_v4_12
+//# props: C16 C19
+//# tier: thorough
+//# encodes: proto::rpc::repl_udp, rpc_parse, build_repl, build_repl_portmap, push_string_pad, push_u32
+//# bounds: 40-byte ONC-RPC GETADDR call over UDP, version 4; XID, flavors, endpoint (IPv6) symbolic; universal address of 12 arbitrary printable bytes
+//# stubs: alloc::fmt::format -> arbitrary printable text of the stated length (same text at every call)
+//# out: the rendering of address and port into the universal-address text (std formatting of IpAddr / integers)
+//# cover: GETADDR answered
+#[kani::proof]
+#[kani::unwind(42)]
+#[kani::stub(alloc::fmt::format, crate::verif_util::fmt_any_stub)]
+fn c16_rpc_getaddr_v4_12() {
+    rpc_getaddr(4, 12, true)
+}
+
+//# harness: c16_rpc_dump_v2
+//# props: C16 C19
+//# tier: quick
+//# encodes: proto::rpc::repl_udp, rpc_parse, build_repl, build_repl_portmap, push_string_pad, push_u32
+//# bounds: 40-byte ONC-RPC DUMP call over UDP, version 2; XID, flavors, endpoint (IPv4) symbolic
+//# stubs: alloc::fmt::format -> arbitrary printable text of the stated length (same text at every call)
+//# out: the rendering of address and port into the universal-address text (std formatting of IpAddr / integers)
+//# cover: DUMP answered
+#[kani::proof]
+#[kani::unwind(42)]
+#[kani::stub(alloc::fmt::format, crate::verif_util::fmt_any_stub)]
+fn c16_rpc_dump_v2() {
+    rpc_dump(2, 9, false)
+}
+
+//# harness: c16_rpc_dump_v3_9
+//# props: C16 C19
+//# tier: quick
+//# encodes: proto::rpc::repl_udp, rpc_parse, build_repl, build_repl_portmap, push_string_pad, push_u32
+//# bounds: 40-byte ONC-RPC DUMP call over UDP, version 3; XID, flavors, endpoint (IPv4) symbolic; address text of 9 arbitrary printable bytes
+//# stubs: alloc::fmt::format -> arbitrary printable text of the stated length (same text at every call)
+//# out: the rendering of address and port into the universal-address text (std formatting of IpAddr / integers)
+//# cover: DUMP answered
+#[kani::proof]
+#[kani::unwind(42)]
+#[kani::stub(alloc::fmt::format, crate::verif_util::fmt_any_stub)]
+fn c16_rpc_dump_v3_9() {
+    rpc_dump(3, 9, false)
+}
+
+//# harness: c16_rpc_dump_v4_8_v6
+//# props: C16 C19
+//# tier: thorough
+//# encodes: proto::rpc::repl_udp, rpc_parse, build_repl, build_repl_portmap, push_string_pad, push_u32
+//# bounds: 40-byte ONC-RPC DUMP call over UDP, version 4; XID, flavors, endpoint (IPv6) symbolic; address text of 8 arbitrary printable bytes
+//# stubs: alloc::fmt::format -> arbitrary printable text of the stated length (same text at every call)
+//# out: the rendering of address and port into the universal-address text (std formatting of IpAddr / integers)
+//# cover: DUMP answered
+#[kani::proof]
+#[kani::unwind(42)]
+#[kani::stub(alloc::fmt::format, crate::verif_util::fmt_any_stub)]
+fn c16_rpc_dump_v4_8_v6() {
+    rpc_dump(4, 8, true)
+}
